@@ -208,7 +208,8 @@ def fam_dict_items(d):
 
 
 def fam_if_return(d):
-    cond = d.pick(["v > 2", "v", "v in data", "check(v)", "v > 1 and v < 5", "not v", "v == 0 or check(v)"])
+    cond = d.pick(["v > 2", "v", "v in data", "check(v)", "v > 1 and v < 5", "not v", "v == 0 or check(v)", "v and data", "data and v", "v or len(data) - 4",
+                   "twice(v) and v - 1", "(v, 1)[0] and 'text'", "v if v > 2 else 0"])
     body = d.pick([
         "def t(v):\n    if {c}:\n        return True\n    return False\n",
         "def t(v):\n    if {c}:\n        return False\n    return True\n",
@@ -423,6 +424,8 @@ def fam_imports(d):
 def fam_strings(d):
     body = d.pick([
         "import logging\nlog = logging.getLogger('vf')\nlog.disabled = True\nv = 3\nlog.info(f'value {v}')\nlog.warning('x %s' % v)\nprint(v)\n",
+        "import logging\nlogging.disable(logging.CRITICAL)\nname = 'n'\nwidth = 5\nlogging.info(f'{name:{width}} done')\nlogging.info(f'{name:>{width}} {width!r:^8}')\nlogging.debug(f'{width:.{width}f} {name}', )\nlogging.error('%s and {}'.format(1) % name)\nprint(name)\n",
+        "import logging\nlogging.disable(logging.CRITICAL)\nv = 2\nlogging.warning(f'{v}' + ' tail')\nlogging.info('a {} b'.format(v))\nlogging.info(f'{v=} {v + 1} {{literal}}')\nlogging.log(10, f'{v}')\nprint(v)\n",
         "print('a\\\\d' + r'\\d', len('\\\\w'))\n",
         "name = 'w'\nprint(f'{name}')\nprint(f'plain')\nprint('{}'.format(name))\nprint('%s' % name)\n",
         "print(\"it's\", 'say \"hi\"', '''tri\nple''')\nx = \"dq\"\ny = 'sq'\nprint(x + y)\n",
@@ -515,6 +518,24 @@ def fam_misc_rewrites(d):
     return _wrap(d, body)
 
 
+def fam_loop_state(d):
+    """Module-level loops whose state is read by the loop header or the else clause only."""
+    body = d.pick([
+        "items = [3, 1, 2, 5]\nfound = False\nwhile items and not found:\n    x = items.pop()\n    found = x == {k}\n    print(x)\nprint(len(items))\n",
+        "for x in {it}:\n    last = x\n    print(x)\nelse:\n    print('else')\nprint('done')\n",
+        "last = -1\nfor x in {it}:\n    last = x\nelse:\n    print(last)\n",
+        "for x in [3, 1, 2]:\n    last = x * 2\n    print(x)\nelse:\n    print('last', last)\n",
+        "n = 3\nwhile n:\n    n -= 1\n    seen = n * 2\nelse:\n    print('seen', seen)\n",
+        "n = 0\nlimit = 3\nwhile n < limit:\n    n += 1\n    limit = limit - 1 if n == 1 else limit\n    print(n, limit)\n",
+        "queue = [1, 2, 3]\ndone = 0\nwhile queue:\n    cur = queue.pop(0)\n    done = cur\n    if cur == {k}:\n        queue = []\nelse:\n    print('drained', done)\n",
+        "total = 0\nfor x in {it}:\n    total += x\n    if total > 4:\n        flag = True\n        break\nelse:\n    flag = False\nprint(total, flag)\n",
+        "i = 0\nstate = 'a'\nwhile state != 'c' and i < 5:\n    i += 1\n    state = 'b' if state == 'a' else 'c'\nprint(i, state)\n",
+    ]).replace("{k}", str(d.int(1, 3))).replace("{it}", d.pick(["[3, 1, 2]", "[]", "data", "range(4)"]))
+    if d.chance(3):
+        return PRELUDE + "def main():\n" + textwrap.indent(body, "    ") + "main()\n"
+    return PRELUDE + body
+
+
 def fam_numpy(d):
     body = d.pick([
         "import numpy as np\na = np.array([[1, 2], [3, 4]])\nb = np.array([[5, 6], [7, 8]])\nprint(np.asarray([[sum(a[i, k] * b[k, j] for k in range(2)) for j in range(2)] for i in range(2)]).tolist())\n",
@@ -536,7 +557,7 @@ FAMILIES = {
     "move_before_loop": fam_move_before_loop, "classes": fam_classes, "duplicates": fam_duplicates, "builtin_chains": fam_builtin_chains,
     "defaultdict": fam_defaultdict, "boolean": fam_boolean, "naming": fam_naming, "constants": fam_constants, "imports": fam_imports,
     "strings": fam_strings, "raise_from": fam_raise_from, "starred": fam_starred, "context_manager": fam_context_manager, "math": fam_math,
-    "layout": fam_layout, "misc_rewrites": fam_misc_rewrites,
+    "layout": fam_layout, "misc_rewrites": fam_misc_rewrites, "loop_state": fam_loop_state,
 }
 NUMPY_FAMILIES = {"numpy": fam_numpy}
 
